@@ -32,6 +32,13 @@ deviation, and its Go-side oracle checks that no `*Entry`, `*ListAttr`, `*RPCEnt
 `Default` backing array is shared between instances or with the cached grouping entry — i.e. that
 the Go trees *are* the unshared values the model computes with.  refine and uses-augment are outside
 the claim (the driver declines such input).
+
+`Entry.Extra` / `Entry.Exts` (what `merge` appends from a `uses` statement: if-feature, when, status,
+reference, extension statements; defect D62) are not part of the resolver model.  The copy law for
+them is stated and proved over the small model `Spec.Uses.XEntry` (`extras_copy_law`,
+`extras_nested_law`, `extras_instances_independent`); its tie to the Go code is the runner's Go-side
+oracle only (predicted values per node, prefix law against the grouping's own entry, no shared
+backing array), not drv_res.
 -/
 namespace Goyang.Props.C06
 open Goyang.Model Goyang.Spec.Uses
@@ -317,6 +324,82 @@ theorem later_uses_same (env : Env) (fuel : Nat) (groot : Mod) (gscope gscope' :
     toEntry env (fuel + 1) groot gscope' g visiting' st = (e, st) :=
   ⟨Lemmas.Uses.toEntry_grouping_cached env fuel groot gscope g visiting st k e hkw h,
    Lemmas.Uses.toEntry_grouping_cached env fuel groot gscope' g visiting' st k e hkw h⟩
+
+/-! ### extras (Entry.Extra, Entry.Exts) — over the small model of Spec/Uses.lean, not the resolver model -/
+
+/-- `Extra[k]` of an append is the append of the `Extra[k]`. -/
+theorem extras_vals_append (a b : Extras) (k : String) : (a.append b).vals k = a.vals k ++ b.vals k := by
+  simp [Extras.vals, Extras.append, List.filter_append]
+
+/-- **extras_copy_law.**  The `i`-th node a `uses` (extras `u`) of the grouping with entry `g` adds
+is the grouping's `i`-th node `c` with, under every keyword, `c`'s own values followed by the
+grouping statement's and then the uses statement's — and the same for the extension statements;
+its name is `c`'s and everything below it is `c`'s, untouched.  Nothing else enters: in
+particular no other use of the grouping. -/
+theorem extras_copy_law (g : XEntry) (u : Extras) (i : Nat) (c : XEntry) (hc : g.kids[i]? = some c) :
+    ∃ v, (usesInstance g u)[i]? = some v ∧ v.name = c.name ∧ v.kids = c.kids ∧
+      (∀ k, v.x.vals k = c.x.vals k ++ g.x.vals k ++ u.vals k) ∧
+      v.x.exts = c.x.exts ++ g.x.exts ++ u.exts := by
+  refine ⟨.mk c.name (c.x.append (g.x.append u)) c.kids, ?_, rfl, rfl, ?_, ?_⟩
+  · have hk : (usesEntry g u).kids = g.kids := rfl
+    have hx : (usesEntry g u).x = g.x.append u := rfl
+    unfold usesInstance mergeKids
+    rw [List.getElem?_map, hk, hc, hx]
+    rfl
+  · intro k
+    simp [XEntry.x, extras_vals_append, List.append_assoc]
+  · simp [XEntry.x, Extras.append, List.append_assoc]
+
+/-- **extras_nested_law.**  Through two levels — grouping `g₁` whose `j`-th node comes from
+`uses g₂ { u₂ }`, itself used with extras `u₁` — the values arrive innermost first: own, `g₂`'s,
+`u₂`, `g₁`'s, `u₁`. -/
+theorem extras_nested_law (g₂ : XEntry) (u₂ : Extras) (n₁ : String) (x₁ : Extras) (pre post : List XEntry) (u₁ : Extras)
+    (i : Nat) (c : XEntry) (hc : g₂.kids[i]? = some c) :
+    ∃ v, (usesInstance (.mk n₁ x₁ (pre ++ usesInstance g₂ u₂ ++ post)) u₁)[pre.length + i]? = some v ∧
+      v.name = c.name ∧ v.kids = c.kids ∧
+      (∀ k, v.x.vals k = c.x.vals k ++ g₂.x.vals k ++ u₂.vals k ++ x₁.vals k ++ u₁.vals k) ∧
+      v.x.exts = c.x.exts ++ g₂.x.exts ++ u₂.exts ++ x₁.exts ++ u₁.exts := by
+  obtain ⟨w, hw, hn, hk, hv, he⟩ := extras_copy_law g₂ u₂ i c hc
+  have hidx : (XEntry.mk n₁ x₁ (pre ++ usesInstance g₂ u₂ ++ post)).kids[pre.length + i]? = some w := by
+    have hlt : i < (usesInstance g₂ u₂).length := by
+      rcases List.getElem?_eq_some_iff.1 hw with ⟨h, _⟩; exact h
+    simp only [XEntry.kids, List.append_assoc]
+    rw [List.getElem?_append_right (Nat.le_add_right _ _), Nat.add_sub_cancel_left, List.getElem?_append_left hlt]
+    exact hw
+  obtain ⟨v, hv', hn', hk', hvv, hee⟩ := extras_copy_law (.mk n₁ x₁ (pre ++ usesInstance g₂ u₂ ++ post)) u₁ (pre.length + i) w hidx
+  refine ⟨v, hv', hn'.trans hn, hk'.trans hk, ?_, ?_⟩
+  · intro k
+    rw [hvv k, hv k]
+    simp [XEntry.x, List.append_assoc]
+  · rw [hee, he]
+    simp [XEntry.x, List.append_assoc]
+
+/-- **extras_instances_independent.**  Two uses of one grouping: what the first adds is determined
+by the grouping and its own uses statement alone — replacing the second use's extras by any
+others changes nothing in the first instance, and the grouping's own entry is the same value
+before and after.  (In the model a value cannot be written through another one; that the Go
+slices behind `Extra` and `Exts` are not shared between the copies, so that the same holds there,
+is what the runner's backing-array oracle checks — defect D62 was exactly such a shared array.) -/
+theorem extras_instances_independent (g : XEntry) (u₁ u₂ u₂' : Extras) :
+    (usesInstance g u₁, usesInstance g u₂).1 = (usesInstance g u₁, usesInstance g u₂').1 ∧
+    ∀ (i : Nat) (c : XEntry), g.kids[i]? = some c → ∀ v : XEntry, (usesInstance g u₁)[i]? = some v →
+      ∀ k, v.x.vals k = c.x.vals k ++ g.x.vals k ++ u₁.vals k := by
+  refine ⟨rfl, ?_⟩
+  intro i c hc v hv k
+  obtain ⟨w, hw, _, _, h, _⟩ := extras_copy_law g u₁ i c hc
+  rw [hw] at hv
+  cases hv
+  exact h k
+
+namespace ExX
+-- the D62 witness: leaf x with three if-features, used with u1 and with u2
+def xLeaf : XEntry := .mk "x" { extra := [("if-feature", "f1"), ("if-feature", "f2"), ("if-feature", "f3")] } []
+def gE : XEntry := .mk "g" {} [xLeaf]
+example : (usesInstance gE { extra := [("if-feature", "u1")] }).map (·.x.vals "if-feature") = [["f1", "f2", "f3", "u1"]] := by
+  decide
+example : (usesInstance gE { extra := [("if-feature", "u2")] }).map (·.x.vals "if-feature") = [["f1", "f2", "f3", "u2"]] := by
+  decide
+end ExX
 
 /-! ### non-vacuity: concrete schemas -/
 
